@@ -27,6 +27,7 @@ type MemStream struct {
 	Writes   [][]byte
 	WriteErr func(n int, p []byte) (int, error) // optional scripted write behaviour
 	OnWrite  func(p []byte)                     // called after a successful write (outside the lock)
+	Gate     func(p []byte)                     // called first by every Write, outside the lock: may block
 	Name     string
 	closeN   int
 }
@@ -79,6 +80,9 @@ func (s *MemStream) Read(p []byte) (int, error) {
 }
 
 func (s *MemStream) Write(p []byte) (int, error) {
+	if g := s.Gate; g != nil {
+		g(p)
+	}
 	s.mu.Lock()
 	if s.closed {
 		s.mu.Unlock()
